@@ -373,6 +373,20 @@ func (st *State) assignPath(baseE ast.Expr, baseT types.Type, path []int, v Val,
 	}
 	f := s.Field(path[0])
 	_, isPtr := baseT.Underlying().(*types.Pointer)
+	if !isPtr {
+		if _, isSel := ast.Unparen(baseE).(*ast.SelectorExpr); isSel {
+			// base is an interior object (l.root.next = ...): it stands for its own address
+			if b := st.eval(baseE); b.K == KInt && b.T != nil {
+				if p, ok := b.T.Underlying().(*types.Pointer); ok && types.Identical(p.Elem(), baseT) {
+					if len(path) != 1 {
+						panic(vcErr("nested path through an interior object"))
+					}
+					st.writeField(b, baseT, f.Name(), path[0], v, x)
+					return
+				}
+			}
+		}
+	}
 	if len(path) > 1 {
 		// read the embedded struct, update inside, write back
 		var inner Val
